@@ -18,26 +18,14 @@ def Graph.WF (g : Graph E) : Prop :=
 
 instance (g : Graph E) : Decidable g.WF := by unfold Graph.WF; infer_instance
 
-/-- all derivative entries are strings (in particular: there are none) -/
-def Deriv.isRaw : Deriv E → Bool
-  | .raw _ => true
-  | .tup _ => false
-
 def Stmt.Good : Stmt E → Prop
   | .assign _ _ => True
   | .ode s => s.g.WF
 
 instance (s : Stmt E) : Decidable s.Good := by cases s <;> unfold Stmt.Good <;> infer_instance
 
-def Step.Good : Step E → Prop
-  | .est s => ∀ d ∈ s.derivatives, d.isRaw = true
-  | .sim _ => True
-
-instance (s : Step E) : Decidable s.Good := by cases s <;> unfold Step.Good <;> infer_instance
-
 /-- side condition of the model-level round trip and of injectivity of the hash pre-image -/
-def Model.Good (m : Model E M) : Prop :=
-  (∀ s ∈ m.statements, s.Good) ∧ (∀ s ∈ m.executionSteps, s.Good)
+def Model.Good (m : Model E M) : Prop := ∀ s ∈ m.statements, s.Good
 
 instance (m : Model E M) : Decidable m.Good := by unfold Model.Good; infer_instance
 
@@ -87,7 +75,13 @@ end
 /-! ### Concrete witnesses (expressions are their serialised text) -/
 
 def strCodec : Codec String String :=
-  { ser := id, de := some, serM := id, deM := some, strT := fun es => "(" ++ ", ".intercalate es ++ ")" }
+  { ser := id, de := some, serM := id, deM := some }
+
+/-- Python's `str` of a tuple of symbols: `(A, B)`, `(A,)` -/
+def pyTupleStr (es : List String) : String :=
+  match es with
+  | [e] => "(" ++ e ++ ",)"
+  | _ => "(" ++ ", ".intercalate es ++ ")"
 
 def wCentral : Node String :=
   .comp { name := "CENTRAL", amount := "A_CENTRAL(t)", doses := [.bolus { amount := "AMT", admid := 1 }],
@@ -109,7 +103,7 @@ def wSys2 : CompSys String := { g := wOps wPeri wCentral, t := "t" }
 def wStep : EstStep String :=
   { method := .str "FOCE", interaction := .bool false, parameterUncertaintyMethod := .null, evaluation := .bool false,
     maximumEvaluations := .null, laplace := .bool false, isample := .null, niter := .null, auto := .null,
-    keepEveryNthIter := .null, derivatives := [.tup ["ETA_1"]], predictions := .arr [], residuals := .arr [],
+    keepEveryNthIter := .null, derivatives := [["ETA_1"], ["EPS_1", "ETA_1"]], predictions := .arr [], residuals := .arr [],
     individualEtaSamples := .bool false, solver := .null, solverRtol := .null, solverAtol := .null,
     toolOptions := .obj [] }
 
